@@ -442,8 +442,13 @@ class IterNode(tp.Generic[FrameOrSeries]):
                 # the labels of a Series are static: a grow-only columns index gives its immutable class
                 columns_cls = columns.__class__ if columns.STATIC else columns._IMMUTABLE_CONSTRUCTOR
                 index_constructor = columns_cls.from_labels
+                depth = columns.depth
             else:
                 index_constructor = self._container._index.from_labels
+                depth = self._container._index.depth
+            if depth > 1:
+                # a hierarchical index of no labels (no windows, no columns) cannot infer its depth
+                index_constructor = partial(index_constructor, depth_reference=depth)
             # always return a Series
             apply_constructor = partial(
                     Series.from_items,
